@@ -134,11 +134,12 @@ func TestC12(t *testing.T) {
 		}
 		updaterStorm(t, r)
 		emptyValues(t, r)
+		damagedCacheEntries(t, r)
 		for i := 0; i < r.N(12, 90); i++ {
 			idleLookupsAcrossAPoll(t, r, i)
 		}
 	}
-	r.Require("idle_lookups_across_a_poll", "empty_value_reads", "rollback_polls_after_a_failed_poll", "handle_reads_during_updater_storm", "reads_after_close_with_cache_fault", "rollback_polls", "handles_from_racing_lookups", "reads_validated", "reads_after_close", "polls_completed", "lookups_during_reads", "expiry_sweeps", "parked_probes_completed", "reader_serial_transitions", "read_after_poll_checks", "handles_obtained_during_poll")
+	r.Require("starts_from_a_damaged_cache", "idle_lookups_across_a_poll", "empty_value_reads", "rollback_polls_after_a_failed_poll", "handle_reads_during_updater_storm", "reads_after_close_with_cache_fault", "rollback_polls", "handles_from_racing_lookups", "reads_validated", "reads_after_close", "polls_completed", "lookups_during_reads", "expiry_sweeps", "parked_probes_completed", "reader_serial_transitions", "read_after_poll_checks", "handles_obtained_during_poll")
 	r.Rule("stress repetitions: 16 reader goroutines over handles of 3 declared + up to 4 looked-up secrets, concurrent with a background poller on a fast ticker, explicit Refresh callers, a service that keeps installing new values, lookups of fresh names, expiry sweeps driven by an injected clock, then Close with readers continuing; every read validated. Parked-request probes: while a poll/lookup/initial request is parked in the service, every handle is called 100 times. Distinct = (reader serial transition kind x concurrent event) and probe kinds")
 }
 
@@ -1100,4 +1101,88 @@ func emptyValues(t *testing.T, r *evid.Run) {
 		}
 	}
 	r.Distinct("empty values through handles")
+}
+
+// damagedCacheEntries: the start-up cache is a well-formed JSON document in which ONE field of one entry is
+// damaged (bad base64, a number where the bytes belong, ...), while its version number is intact and equals
+// what the service has active - so polls will answer "not changed" for it. Whatever the store makes of such a
+// cache, every handle yields bytes that were really served for its name: at start-up and after polls.
+func damagedCacheEntries(t *testing.T, r *evid.Run) {
+	damages := []struct{ kind, field string }{
+		{"bad base64", `"Value":"!!!not-base64!!!"`},
+		{"number for bytes", `"Value":12345`},
+		{"object for bytes", `"Value":{"x":1}`},
+		{"array of strings for bytes", `"Value":["a","b"]`},
+		{"base64 with a stray character", `"Value":"QUJD*EVG"`},
+	}
+	for di, dm := range damages {
+		for _, declared := range []bool{true, false} {
+			w := &world{svc: fakesvc.New(), rng: rand.New(rand.NewPCG(uint64(di), 23)), ver: map[string]uint32{}, served: map[string]map[uint64]string{}}
+			names := []string{"d/a", "d/b"}
+			for _, n := range names {
+				w.bump(n)
+			}
+			entries := map[string]string{}
+			for _, n := range names {
+				v, _ := w.svc.Active(n)
+				b, _ := json.Marshal(map[string]any{"secret": map[string]any{"Value": v.Bytes, "Version": v.Version}, "lastAccess": "1700000000"})
+				entries[n] = string(b)
+			}
+			// damage the value field of d/a, keep its version
+			va, _ := w.svc.Active("d/a")
+			entries["d/a"] = fmt.Sprintf(`{"secret":{%s,"Version":%d},"lastAccess":"1700000000"}`, dm.field, va.Version)
+			doc := fmt.Sprintf(`{"d/a":%s,"d/b":%s}`, entries["d/a"], entries["d/b"])
+			cfg := setec.StoreConfig{Client: w.svc, Secrets: names, Cache: &fakesvc.MonCache{Initial: []byte(doc)}, PollInterval: -1, Logf: func(string, ...any) {}}
+			if !declared {
+				cfg.Secrets, cfg.AllowLookup = []string{"d/b"}, true
+			}
+			st, err := setec.NewStore(context.Background(), cfg)
+			r.Eval(1)
+			r.Count("starts_from_a_damaged_cache", 1)
+			r.Distinct("start from a cache with " + dm.kind)
+			what := fmt.Sprintf("start-up cache with %s in the entry of d/a (declared=%t), version number intact and equal to the service's active one", dm.kind, declared)
+			if err != nil {
+				r.Violation("newstore-fails", -1, what+": "+err.Error(), nil)
+				continue
+			}
+			check := func(when string) bool {
+				for _, n := range names {
+					var h setec.Secret
+					if p := func() (p any) {
+						defer func() { p = recover() }()
+						h = st.Secret(n)
+						return nil
+					}(); p != nil || h == nil {
+						if n == "d/a" && !declared {
+							// (an undeclared entry that was discarded is simply unknown; look it up)
+							var lerr error
+							if h, lerr = st.LookupSecret(context.Background(), n); lerr != nil {
+								r.Violation("lookup-of-known-name-fails", -1, fmt.Sprintf("%s, %s: %v", what, when, lerr), nil)
+								return false
+							}
+						} else {
+							r.Violation("handle-panics", -1, fmt.Sprintf("%s, %s: Secret(%q) panics/nil: %v", what, when, n, p), nil)
+							return false
+						}
+					}
+					b := h.Get()
+					name, serial, ok := parse(b)
+					if !ok || name != n || !w.wasSet(n, serial, b) {
+						r.Violation("never-served-value", -1, fmt.Sprintf("%s, %s: the handle of %q yields %d bytes (%.40q) that were never served for it", what, when, n, len(b), b), nil)
+						return false
+					}
+				}
+				return true
+			}
+			if check("right after NewStore") {
+				for k := 1; k <= 2; k++ {
+					st.Refresh(context.Background())
+					if !check(fmt.Sprintf("after %d completed poll(s)", k)) {
+						break
+					}
+				}
+			}
+			st.Close()
+		}
+	}
 }
